@@ -1,0 +1,18 @@
+//go:build !verif
+
+// Package verifhook holds observation / scheduling / fault-injection points used by the
+// external verification harness. Without the `verif` build tag every function is an empty
+// inlinable body, so call sites compile to nothing.
+package verifhook
+
+// Enabled reports whether the hooks are compiled in.
+const Enabled = false
+
+// Emit records an observation event.
+func Emit(_ string, _ ...string) {}
+
+// Yield marks a point where the harness may park the calling goroutine.
+func Yield(_ string, _ ...string) {}
+
+// Fault returns an injected error for the named point, or nil.
+func Fault(_ string, _ ...string) error { return nil }
